@@ -248,12 +248,13 @@ meta("C13",
                   "back to its entry value; FreeUriMembers twice is harmless; realloc/reallocarray are never used; an incomplete "
                   "manager or NULL argument is rejected before anything is allocated; uriMemoryManagerIsComplete under an unbounded "
                   "function contract. The NULL-manager => default-manager branch is the URI_CHECK_MEMORY_MANAGER macro, covered "
-                  "syntactically by the call-graph fact and not exercised with the C library allocator. ManagerEntry (complete: loop-free): "
+                  "syntactically by the call-graph fact; DefaultManager exercises it with CBMC's model of the C library allocator and the "
+                  "memory-leak check. ManagerEntry (complete: loop-free): "
                   "each of the ten manager-taking functions with each of five incomplete managers and arbitrary argument contents: the "
                   "dedicated code, no request, no release, output objects untouched. NullArgs (complete): the NULL-argument exits with a "
                   "stale output URI release nothing, nor does the caller's cleanup. Wrappers (complete): the 23 thin public wrappers "
                   "hand the default manager (NULL) and their own arguments to the manager-taking function, once."),
-     assumptions=[MM_ASSUME, BOUNDED_NOTE, "default (libc) manager path not executed symbolically: the five uriDefault* forwarders are under no obligation"],
+     assumptions=[MM_ASSUME, BOUNDED_NOTE, "default (libc) manager path: uriDefaultMalloc/Calloc/Free and one operation end to end (DefaultManager.*.H, on CBMC's allocator model with the leak check); uriDefaultRealloc/Reallocarray are under no obligation (the library never calls them: asserted by the ledger stub's misuse counter)"],
      level_text="ledger postconditions in every whole-operation obligation (bounded) + static call-graph fact + entry-check contracts",
      level_note="bounded in list and text length; default-manager path only by the static fact")
 
